@@ -31,7 +31,7 @@ PLANS = {
     "C01": ctl(["reap", "force", "all_reap"], ["reap", "force", "cordon", "all_reap"],
                [D("reap", odd=True, faults=12), D("mix", lag=True, odd=True), D("cycle", n=20, steps=90, groups=1, faults=3, dry=0),
                 # real time (4 s ticks, really elapsing): time the controller remembers by itself ages too
-                D("cycle", n=32, steps=45, procs=1, par=32, groups=1, faults=3, dry=0, realtime="4s")],
+                D("cycle", n=32, steps=36, procs=1, par=32, groups=1, faults=3, dry=0, realtime="4s")],
                [D("reap", n=60, steps=100, procs=8, odd=True, faults=12), D("mix", n=60, steps=100, procs=8, lag=True, odd=True),
                 D("cycle", n=80, steps=120, procs=8, groups=1, faults=3, dry=0),
                 D("cycle", n=64, steps=70, procs=2, par=32, groups=1, faults=3, dry=0, realtime="4s")],
@@ -40,7 +40,7 @@ PLANS = {
                ["C01:removed-a", "C01:removed-b", "C01:removed-c", "C01:kept-soft-not-passed", "C01:kept-busy-before-hard",
                 "C01:kept-unreadable-taint-time", "C01:kept-cordoned", "C01:kept-force-busy"]),
     "C02": ctl(["lock"], ["lock"],
-               [D("lock", twin=True, faults=8), D("mix", twin=True), D("lock", n=32, steps=40, procs=1, par=32, groups=2, faults=5, realtime="4s")],
+               [D("lock", twin=True, faults=8), D("mix", twin=True), D("lock", n=32, steps=32, procs=1, par=32, groups=2, faults=5, realtime="4s")],
                [D("lock", n=60, steps=100, procs=8, twin=True, faults=8), D("mix", n=40, steps=100, procs=8, twin=True),
                 D("lock", n=64, steps=70, procs=2, par=32, groups=2, faults=5, realtime="4s")],
                "cases: model states + seeded histories with a twin scan (same world, fresh controller) at every scan; non-trivial: a scan inside a cool-down "
@@ -57,8 +57,8 @@ PLANS = {
                "non-trivial: a scan that asked the cloud for capacity (with max_nodes below / above the cloud maximum, landing on the bound or not)",
                ["C04:request", "C04:request-on-bound", "C04:max_nodes-below-cloud-max", "C04:max_nodes-above-cloud-max"]),
     "C06": ctl(["updown", "all_scale"], ["updown", "auto", "all_scale"],
-               [D("down", faults=0, dry=0), D("up", faults=0, dry=0), D("mix", faults=0, dry=0)],
-               [D("down", n=60, steps=100, procs=6, faults=0, dry=0), D("up", n=60, steps=100, procs=6, faults=0, dry=0), D("mix", n=60, steps=100, procs=6, faults=0, dry=0)],
+               [D("down", faults=0, dry=0), D("up", faults=0, dry=0, fine=True), D("mix", faults=0, dry=0, fine=True)],
+               [D("down", n=60, steps=100, procs=6, faults=0, dry=0), D("up", n=60, steps=100, procs=6, faults=0, dry=0, fine=True), D("mix", n=60, steps=100, procs=6, faults=0, dry=0, fine=True)],
                "non-trivial: a fault-free scan of an unlocked, in-bounds group, classified by the exact band of max(cpu%, mem%) (incl. exactly on a threshold) and by the starve / max-age triggers",
                ["C06:band-fast", "C06:band-slow", "C06:band-none", "C06:band-up", "C06:on-threshold", "C06:starve", "C06:max-age"]),
     "C07": ctl(["updown", "forceup", "all_scale"], ["updown", "forceup", "lock", "all_scale"],
